@@ -857,7 +857,8 @@ func (r *TypeClassSummonContext) lookupTypeClassInstance(ctx CurrentContext, req
 						TypeArgs: nil,
 					}}, "Bytes")
 
-			if bytesInstance.target.IsRight() {
+			// not the catch-all Given[T any]() : a typeclass package without a Bytes instance has Slice
+			if bytesInstance.target.IsRight() && !bytesInstance.isGivenAny() {
 				return bytesInstance
 			}
 			return r.namedLookup(ctx, req, "Slice")
